@@ -31,11 +31,15 @@ class WorkflowContext:
     @property
     def deterministic(self) -> DeterministicExecutor:
         """Get the deterministic executor for this workflow context."""
-        if self._deterministic is None:
-            self._deterministic = DeterministicExecutor(
-                self.task.invocation.workflow, self.task.app
-            )
-        return self._deterministic
+        # The Task object (and this context) is shared by every execution of the task
+        # in the process: the executor, whose counters are the replay position, belongs
+        # to one execution of one workflow, so it is kept on the running invocation.
+        invocation = self.task.invocation
+        executor = getattr(invocation, "_deterministic_executor", None)
+        if executor is None:
+            executor = DeterministicExecutor(invocation.workflow, self.task.app)
+            invocation._deterministic_executor = executor  # type: ignore[attr-defined]
+        return executor
 
     @property
     def app(self) -> Pynenc:
